@@ -131,7 +131,14 @@ deciding the outcome.  Two texts whose parser traces agree therefore load to the
 theorem read_eq_interp (text : List Nat) (origin : Option Name) (rel : Bool) :
     (PState.init text origin rel).read =
       interpTrace (parseTrace (text.length + 2) (PState.init text origin rel)) [] := by
-  simp [PState.read, readLoop_eq_interp, PState.init, TState.init]
+  simp [PState.read, readLoop_eq_interp, PState.init, TState.init, includeFuel]
+
+/-- the same from any reader state — with `$INCLUDE` allowed, files to open and includes pending: pushing and popping
+`saved_state` happens inside the zone-independent parser (`lineStep`), so a file with `$INCLUDE`s still denotes the fold
+of `txn.add` over one trace of records -/
+theorem read_eq_interp_state (r : PState) :
+    r.read = interpTrace (parseTrace (r.tok.input.length + 2 + includeFuel r.files) r) [] := by
+  simp [PState.read, readLoop_eq_interp]
 
 /-- "either order of TTL and class" (under any layout of the separators, including parenthesised multi-line
 ones): `<ttl> <class> <type>` and `<class> <ttl> <type>` parse to the same TTL and type, update `last_ttl` alike and
